@@ -255,6 +255,11 @@ defop("arr_sub", lambda ns, a, b: a - b, ["A", "A"], lambda a, cfg, ts: len(a[0]
 defop("arr_scale", lambda ns, a, k: a * k if isinstance(k, int) and k % 2 else k * a, ["A", "Ii"], weight=0.4)
 defop("arr_ite", lambda ns, c, a, b: ns.br.if_then_else(c, a, b), ["B", "A", "A"], lambda a, cfg, ts: len(a[1]) == len(a[2]), weight=0.4)
 defop("arr_joined", lambda ns, a, b: ns.ar.Array(ns.ar.Array([a, b]).joined()), ["A", "A"], weight=0.2)
+# the linalg helpers take any iterables: here the coefficients / elements are produced lazily, each item emitting its own
+# constraints at the moment it is pulled (a one-hot selector row "i == k for k in range(n)" is the library's own idiom)
+defop("lin_comb_lazy", lambda ns, i, a, b, c: ns.la.lin_comb((i == k for k in range(3)), [a, b, c]), ["I", "Ii", "Ii", "Ii"], weight=0.3)
+defop("vector_sub_lazy", lambda ns, a, b: ns.ar.Array(ns.la.vector_sub((x * x for x in a.arr), iter(b.arr))), ["A", "A"],
+      lambda a, cfg, ts: len(a[0]) == len(a[1]), weight=0.2)
 defop("scalar_mul", lambda ns, k, a: ns.ar.Array(ns.la.scalar_mul(k, a.arr)), ["Ii", "A"], weight=0.2)
 defop("vector_sub", lambda ns, a, b: ns.ar.Array(ns.la.vector_sub(a.arr, b.arr)), ["A", "A"], lambda a, cfg, ts: len(a[0]) == len(a[1]), weight=0.2)
 
@@ -285,6 +290,13 @@ def _ggh(ns, l):
 defop("ggh", _ggh, ["L"], lambda a, cfg, ts: len(a[0]) > 0, weight=0.2)
 defop("pack_int", lambda ns, x, m: ns.pk.PackIntMod(m).pack(x), ["I", "i"],
       lambda a, cfg, ts: 0 <= a[0] < a[1], weight=0.3, params={1: ("k", 1, 20)})
+
+
+# unpacking bits that are already wires (pack.py: "lincomb in"): a single flag, a seed-like run of flags, a mixed record
+defop("unpack_bool", lambda ns, x: ns.pk.PackBool().unpack([x], 0), ["IB"], weight=0.2)
+defop("unpack_flags", lambda ns, a, b, c: ns.pk.PackRepeat(ns.pk.PackBool(), 3).unpack([a, b, c], 0), ["IB", "IB", "IB"], weight=0.2)
+defop("unpack_record", lambda ns, x, b0, b1, z: ns.pk.PackList([ns.pk.PackBool(), ns.pk.PackIntMod(3), ns.pk.PackBool()]).unpack([x, b0, b1, z], 0),
+      ["IB", "B", "B", "IB"], weight=0.2)
 
 
 # ---------------------------------------------------------------------------
